@@ -2,7 +2,7 @@
    size bound [Small]); no assumption on the hash function is needed: a staging bundle that was
    written for another tree with the same (size, root) key can only be met after the committed
    tree has been completed, and then the immutability of tiles makes its application harmless *)
-From SL Require Import Base.BytesProofs Merkle.TilesProofs Ctlog.Model Ctlog.Spec Ctlog.Inv Ctlog.InvStep
+From SL Require Import Base.BytesProofs Merkle.TilesProofs Ctlog.Model Ctlog.Recompute Ctlog.Spec Ctlog.Inv Ctlog.InvStep
   Ctlog.Theorems2 Ctlog.Inv3.
 From Coq Require Import ZifyN ZifyNat ZifyBool.
 Open Scope N_scope.
@@ -632,6 +632,11 @@ Proof.
     match goal with |- Inv3 (fst (set_i w i ?X, _)) => same3 i X end.
     all: try (eapply inst3_core; [| | | |exact (T4 _ _ G)]; reflexivity).
   - destruct NT.
+  - (* recompute-cache *)
+    destruct (get_inst (w_insts w) i) as [x|] eqn:G; [|exact HI3].
+    destruct (step_recompute_spec sha w i x key lim) as [E|(p & ls & c1 & why & _ & _ & _ & E)]; rewrite E; [exact HI3|].
+    match goal with |- Inv3 (set_i w i ?X) => change (Inv3 (fst (set_i w i X, @nil obs))); same3 i X end.
+    all: try (eapply inst3_core; [| | | |exact (T4 _ _ G)]; reflexivity).
 Qed.
 
 End I.
